@@ -4,6 +4,7 @@
 package symex
 
 import (
+	"strings"
 	"encoding/json"
 	"fmt"
 	"go/types"
@@ -41,8 +42,24 @@ func extReadFile(fr *frame, args []value) value {
 }
 
 func extWithTimeout(fr *frame, args []value) value {
-	// the deadline never fires within a bounded run; cancel is a no-op
-	return tuple{args[0], nativeFn(func(fr *frame, a []value) value { return nil })}
+	cancel := nativeFn(func(fr *frame, a []value) value { return nil })
+	// A time-out of at most a microsecond has passed before the script can
+	// start: the context handed back is already done (the harness's model of
+	// a context, done from the first look at it). Any longer deadline never
+	// fires within a bounded run.
+	if d, ok := args[1].(int64); ok && d <= 1000 {
+		if pkg := fr.i.prog.ImportedPackage(strings.TrimSuffix(fr.i.ld.RepoPrefix, "/") + svPkg); pkg != nil {
+			if tn := pkg.Type("SymCtx"); tn != nil {
+				p := fr.i.path
+				id := len(p.ctxs)
+				p.ctxs = append(p.ctxs, &ctxState{k: p.ts.BV(0, 64)})
+				cell := value(structure{id, 0, int64(0), false})
+				return tuple{iface{t: types.NewPointer(tn.Type()), v: &cell}, cancel}
+			}
+		}
+		fr.i.path.unsupported("context.WithTimeout with an expired deadline: no model of a done context in this package")
+	}
+	return tuple{args[0], cancel}
 }
 
 var emptyIface = types.NewInterfaceType(nil, nil).Complete()
